@@ -98,11 +98,37 @@ def gen_utilities(rng, streams, kind=None):
     return out
 
 
+def tree_from_labels(labels, root="Site"):
+    """Explicit zone tree (ZoneTreeSchema dict) holding every label as a path of process zones."""
+    node = {"name": root, "type": "Site", "children": []}
+    for lab in labels:
+        cur = node
+        for part in label_parts(lab):
+            nxt = next((c for c in cur["children"] if c["name"] == part), None)
+            if nxt is None:
+                nxt = {"name": part, "type": "Process Zone", "children": []}
+                cur["children"].append(nxt)
+            cur = nxt
+
+    def clean(n):
+        n["children"] = [clean(c) for c in n["children"]] or None
+        return n
+    return clean(node)
+
+
 def gen_problem(rng, **kw):
     labels = kw.pop("labels", None) or gen_labels(rng)
     util_kind = kw.pop("util_kind", None)
+    with_tree = kw.pop("with_tree", None)
+    if with_tree is None:
+        with_tree = rng.random() < 0.3
+    if with_tree and "name_clash_p" not in kw:
+        kw["name_clash_p"] = rng.choice([0.0, 0.3, 0.6])       # several streams of one zone may share a name
     streams = gen_streams(rng, labels=labels, **kw)
-    return {"streams": streams, "utilities": gen_utilities(rng, streams, util_kind), "options": {}}
+    pr = {"streams": streams, "utilities": gen_utilities(rng, streams, util_kind), "options": {}}
+    if with_tree:
+        pr["zone_tree"] = tree_from_labels(sorted({s["zone"] for s in streams}))
+    return pr
 
 
 # --------------------------------------------------------------------------- service
